@@ -250,20 +250,19 @@ def obligations(tier):
         obs.append(Ob(f"a.normalize.{'abs' if ab else 'rel'}", "vf.props.c05:norm_consistent", {"ABSOLUTE": ab}, engine="crosshair", timeout=T,
                       bounds=f"{'absolute' if ab else 'relative'} table location, symbolic str len <= 6, file name len <= 3, data/ and metadata/manifests/",
                       weight=6))
+    firsts_all = ["append", "delete", "replace", "expire", "delsnap", "gc", "open_txn", "contended_commit"]
     if tier == "quick":
-        L = 2
-        spell = ["abs", "rel", "symlink", "rel_data", "rel_d", "trailing", "s3_p", "s3_data"]
-        firsts = [None]
+        plan = [(s, None, 2, T) for s in ["abs", "rel", "symlink", "rel_data", "rel_d", "trailing", "s3_p", "s3_data"]]
     else:
-        L = 4
-        spell = list(SPELLINGS)
-        firsts = ["append", "delete", "replace", "expire", "delsnap", "gc", "open_txn", "contended_commit"]
-    for s in spell:
-        for f in firsts:
-            obs.append(Ob(f"b.history.{s}{'.' + f if f else ''}.L{L}", "vf.props.c05:gc_history",
-                          {"spelling": s, "L": L, "first": f, "_must_reach": ["ran"], "_sample_every": 25}, timeout=T * (1 if tier == "quick" else 3),
-                          bounds=f"location spelling '{s}' ({SPELLINGS[s]}), 2 appends + {L} solver-chosen operations"
-                                 f"{' starting with ' + f if f else ''} + a final collection", weight=L + 2))
+        # every spelling: histories of 3 operations; the two main spellings: histories of 4 (sized from measured runs: an L=4 obligation
+        # explores 10-40 k histories)
+        plan = [(s, f, 3, 900) for s in SPELLINGS for f in firsts_all]
+        plan += [(s, f, 4, 2400) for s in ("abs", "s3_p") for f in firsts_all]
+    for s, f, L, TT in plan:
+        obs.append(Ob(f"b.history.{s}{'.' + f if f else ''}.L{L}", "vf.props.c05:gc_history",
+                      {"spelling": s, "L": L, "first": f, "_must_reach": ["ran"], "_sample_every": 25}, timeout=TT,
+                      bounds=f"location spelling '{s}' ({SPELLINGS[s]}), 2-file append + append + {L} solver-chosen operations"
+                             f"{' starting with ' + f if f else ''} + a final collection", weight=L + 2, allow_inconclusive=(L == 4)))
     for sname in (["abs", "s3_p"] if tier == "quick" else ["abs", "rel_data", "symlink", "s3_p", "s3_data"]):
         for second in (False, True):
             if tier == "quick" and second and sname != "s3_p":
